@@ -6,7 +6,8 @@
   `canon` is the discrete part (what the writer does not write and the reader completes: an adjacent id 0, an empty lanelet
   type set, a stop line without points, `virtual`, the light direction default, a non-positive time offset, a zero centre /
   orientation of a dynamic obstacle's shape, a one-member shape group, the attribute order of a state, the defaults of an
-  initial state); `mapR` touches the reals and nothing else.  `canon` is the identity on strictly expressible values.
+  initial state AND the loss of every attribute of an initial state that `InitialState` does not have: `C01_initial_extra_dropped`);
+  `mapR` touches the reals and nothing else.  `canon` is the identity on strictly expressible values.
 -/
 import CRModel.CRXml
 import CRProofs.CRXml
@@ -207,7 +208,8 @@ theorem normState_eq (cfg : Cfg) (hz : ZeroFixed (realMaps cfg.P)) (s : State) :
     intro a _
     exact pick_mapR _ _ a
 
-/-- an initial state: exactly the attributes of the first class (`InitialState`), unset ones with their default -/
+/-- an initial state: exactly the attributes of the first class (`InitialState`), unset ones with their default; every OTHER
+    attribute the state carries is dropped (the reader only fills an `InitialState`; `C01_initial_extra_dropped`) -/
 def State.canonInitial (cfg : Cfg) (s : State) : State :=
   match cfg.classes with
   | [] => s
